@@ -668,6 +668,30 @@ fn main() {
                 Err(_) => "err".to_string(),
                 Ok(g) => matched_offsets(&g, &arg(1)),
             },
+            "MAC" | "MAO" | "MAN" => {
+                // match through a combinator of compiled / owned / nested members (as AC, AO, AN build them)
+                let es: Vec<String> = args.iter().skip(2).map(|x| unhex(x)).collect();
+                let r = match cmd {
+                    "MAC" => es.iter().map(|x| Glob::new(x)).collect::<Result<Vec<Glob<'_>>, _>>().and_then(wax::any),
+                    "MAO" => es
+                        .iter()
+                        .enumerate()
+                        .map(|(i, x)| if i == 0 { Glob::new(x).map(|g| g.into_owned()) } else { Glob::from_str(x) })
+                        .collect::<Result<Vec<Glob<'static>>, _>>()
+                        .and_then(wax::any),
+                    _ => {
+                        let (a, b) = es.split_at(1.min(es.len()));
+                        match (wax::any(a.iter().map(|x| x.as_str())), wax::any(b.iter().map(|x| x.as_str()))) {
+                            (Ok(x), Ok(y)) => wax::any([x, y]),
+                            (Err(e), _) | (_, Err(e)) => Err(e),
+                        }
+                    },
+                };
+                match r {
+                    Err(_) => "err".to_string(),
+                    Ok(a) => matched_line(&a, 0, &arg(0)),
+                }
+            },
             "MA" => {
                 // MA <path> <k> <e1> .. <ek>
                 let es: Vec<String> = args.iter().skip(2).map(|x| unhex(x)).collect();
